@@ -33,6 +33,9 @@ def family_ops(fam):
     return {"W0": {}, "W0b": {"extra": 1}, "Wbad": 5}
 
 
+SHARED_META = {"shared": "one metadata dict handed to every writer an application creates"}
+
+
 def run_history(fa, cid, schema, ops, codec, interval, donors, validator=False, sync=b"", meta=None, tag=None, path=None):
     """ops: list of ("write", rec) | ("flush",) | ("wblock", donor, bi) | ("reopen", argsdict). Returns the logged case.
     path: run on a real file (created 'w+b', re-opened 'a+b' for every append) instead of a BytesIO."""
@@ -52,7 +55,7 @@ def run_history(fa, cid, schema, ops, codec, interval, donors, validator=False, 
 
     donor_blocks = {}
 
-    w = W.Writer(fo, schema, codec=codec, sync_interval=interval, validator=validator, sync_marker=sync, metadata=dict(meta) if meta else None)
+    w = W.Writer(fo, schema, codec=codec, sync_interval=interval, validator=validator, sync_marker=sync, metadata=meta if meta is SHARED_META else dict(meta) if meta else None)
     events.append({"op": "create", "raised": False, "stream": snap()})
     state = {"w": w, "peeked": set()}
 
@@ -218,7 +221,7 @@ def randomised(ctx, fa, n, maxops):
             fpath = os.path.join(tmpdir, "h%d.avro" % len(cases)) if onfile else None
             cases.append(run_history(fa, "r%d" % len(cases), schema, ops, rnd.choice(codecs), rnd.choice([1, 10, 60, 100000]), donors,
                                      validator=rnd.random() < 0.3, sync=rnd.choice([b"", bytes(rnd.getrandbits(8) for _ in range(16))]),
-                                     meta=rnd.choice([None, {"k": "v"}]), tag="random-file" if onfile else "random", path=fpath))
+                                     meta=rnd.choice([None, {"k": "v"}, SHARED_META, SHARED_META]), tag="random-file" if onfile else "random", path=fpath))
             if fpath and os.path.exists(fpath):
                 os.unlink(fpath)
         except core.tlc.MachineryError:
